@@ -703,8 +703,11 @@ func (s *Store[K, V]) sinkWrite(item WriteBufItem[K, V]) {
 			if expire <= s.timerwheel.clock.NowNano() {
 				s.removeEntry(entry, EXPIRED)
 				// removeEntry leaves the entry alone when its deadline was extended in
-				// the meantime: then it is a live entry and must still reach the policy
-				if entry.flag.IsRemoved() {
+				// the meantime: then it is a live entry and must still reach the policy.
+				// It has put such an entry back into the wheel; the removed mark alone
+				// does not tell, because a removed entry that went back to the entry pool
+				// has had its flags cleared.
+				if entry.flag.IsRemoved() || entry.meta.wheelPrev == nil {
 					return
 				}
 			} else {
